@@ -235,9 +235,13 @@ func exprTextD(info *types.Info, e ast.Expr, defs map[types.Object]localDef, dep
 		if isSpecType(info.TypeOf(x.X)) {
 			return exprText(info, x)
 		}
-		return exprTextD(info, x.X, defs, depth+1) + "." + x.Sel.Name
+		return strings.TrimLeft(exprTextD(info, x.X, defs, depth+1), "&*") + "." + x.Sel.Name
 	case *ast.StarExpr:
-		return "*" + exprTextD(info, x.X, defs, depth+1)
+		if in := exprTextD(info, x.X, defs, depth+1); strings.HasPrefix(in, "&") {
+			return in[1:]
+		} else {
+			return "*" + in
+		}
 	case *ast.IndexExpr:
 		if ip, ok := exprPoly(info, x.Index, defs, nil, depth+20); ok {
 			return exprTextD(info, x.X, defs, depth+1) + "[" + strings.NewReplacer("*", "·", " ", "").Replace(ip.String()) + "]"
